@@ -70,14 +70,16 @@ CLAIMED = {
                   '+ extracted-model correspondence + oracle on the implementation',
         design='5/C14'),
     'C03': dict(
-        text='Kernel-checked on a finite family stated in the theorem (314 one-block trees with containers nested two deep x 48 spellings, 4356 two-block trees x 6 '
-             'spellings; quotes, tight bullet lists, fences, headings, breaks, paragraphs): the pipeline model renders the spelled text to exactly the HTML '
-             'written from the tree, tree grammar/speller/HTML writer being a Coq specification that does not use the parser model. The property\'s full grammar '
-             '(all inline constructs, ordered and loose lists, tables, HTML blocks, link definitions, lazy lines, indents, depth 4) is decided on the implementation '
-             'by a tree-first generator with an independent HTML writer and CommonMark\'s normalisation; model tied to the implementation by X-doc on the generated texts.',
-        note='PARTIAL (bounded in the kernel, sampled beyond). Trusted: Coq kernel incl. vm_compute, extraction, translators, pipeline model (correspondence-checked), '
+        text='UNBOUNDED on a fragment: for every tree - any size, any depth - of one-line plain paragraphs, block quotes and single-item lists (all markers, padding 1-4; '
+             'siblings separated by a blank line, a list last among its siblings) the block tokenizer of the model returns on the spelled text exactly the pre-token tree '
+             'written from the tree (kinds, nesting, start lines, list attributes, loose flags); the proof composes the quote law, the list law, blank-line independence '
+             'and the plain-line theorem. Beyond the fragment: kernel-checked on a finite family stated in the theorem (314 one-block trees with containers nested two deep '
+             'x 48 spellings, 4356 two-block trees x 6 spellings: fences, headings, breaks, tight lists) that the pipeline model renders the spelled text to exactly '
+             'the HTML written from the tree; the full grammar (inlines, ordered/loose lists, tables, HTML blocks, definitions, lazy lines, indents, depth 4) is decided '
+             'on the implementation by a tree-first generator with an independent HTML writer and CommonMark\'s normalisation; X-doc ties the model to the implementation.',
+        note='PARTIAL beyond the fragment (bounded in the kernel, sampled on the implementation). Trusted: Coq kernel incl. vm_compute, extraction, translators, pipeline model (correspondence-checked), '
              'harness/treegen.py and htmlnorm.py (the oracle). Three genuine defects repaired (fix: 3e6741d, 952f88d, 8741346); two recorded findings.',
-        technique='bounded kernel sweep against a Coq specification of spelling + extracted-model correspondence + generator oracle on the implementation',
+        technique='Coq proof (induction on nesting depth composing the C04/C05/C14 laws) + bounded kernel sweep against a Coq specification of spelling + extracted-model correspondence + generator oracle',
         design='5/C03'),
     'C17': dict(
         text='Theorems over ALL token trees about a Gallina model of LaTeXRenderer: template braces and \\begin/\\end pairs properly nested, every text '
